@@ -16,7 +16,9 @@ func NewReconcilerForVerif(topo topo.Store, conns gnmi.ConnManager, proposals pr
 }
 
 // NewWatcherForVerif exposes the watcher
-func NewWatcherForVerif(proposals proposalstore.Store) *Watcher { return &Watcher{proposals: proposals} }
+func NewWatcherForVerif(proposals proposalstore.Store) *Watcher {
+	return &Watcher{proposals: proposals}
+}
 
 // NewConfigurationWatcherForVerif exposes the watcher
 func NewConfigurationWatcherForVerif(configurations configuration.Store) *ConfigurationWatcher {
